@@ -48,6 +48,7 @@ type Obl struct {
 	Text   string
 	Fn     string
 	Vacuity bool // planted assert-false: must NOT be unsat
+	Support bool // not tagged with the property under check, but assumed by an obligation that is
 }
 
 type Gen struct {
